@@ -57,7 +57,7 @@ RANGES = [(0, 1), (0, 0), (-1, 1), (-2, -1), (1, 2), (2, 2), (-1, -1)]
 UNIVS = [0, 1, 2, 3]
 
 
-def make_deck(ch, dims, skew, by_rpp, arr_mode):
+def make_deck(ch, dims, skew, by_rpp, arr_mode, ranges=None):
     d = HDeck('c06 lattice')
     # unit cell: x in [-1, 1], y in [-0.5, 1.5], z in [-2, 1]; skew: y-planes replaced by x+2y = const
     normals = [(1.0, 0.0, 0.0), (0.0, 1.0, 0.0), (0.0, 0.0, 1.0)]
@@ -98,7 +98,7 @@ def make_deck(ch, dims, skew, by_rpp, arr_mode):
             expr = ('*', expr, l)
     base = base_vectors(pairs)
     # ranges
-    rng = [ch.choose('range%d' % k, RANGES) for k in range(dims)]
+    rng = [ch.choose('range%d' % k, ranges or RANGES) for k in range(dims)]
     ntriv = 0
     if dims < 3:
         ntriv = ch.choose('trailing-trivial', [0, 1, 2][:4 - dims])
@@ -263,9 +263,21 @@ def b_shapes(ch):
     return make_deck(ch, dims, skew, by_rpp, mode)
 
 
+BIG_RANGES = [(0, 3), (-5, 6), (-2, 2), (0, 9)]
+
+
+def b_big(ch):
+    """beyond the small scope: 4 x 4, 12 x 4, 5 x 5, 10 x 4 ... elements (FILL arrays of up to 40 entries or FILL=n
+    with --lattice), container large enough to hold them"""
+    dims = ch.choose('dims', [2, 1])
+    mode = ch.choose('array-mode', ['rot', 'single'])
+    return make_deck(Preset(ch, {'container': 0}), dims, False, False, mode, ranges=BIG_RANGES)
+
+
 def scenarios(tier):
     q = tier == 'quick'
     return [
+        Scn('big', b_big, 1 if q else 2, 2, 'lattices of 4 ... 40 elements'),
         Scn('arrays-2d', b_arrays2d, 0 if q else 1, 2, 'all fill arrays (free) x other choices deviation-bounded'),
         Scn('arrays-2d-flip', b_arrays2d_preset({'hi-first0': 1}), 0, 0, 'all arrays, first pair listed low-first'),
         Scn('arrays-2d-swap', b_arrays2d_preset({'pair-order': 1, 'hi-first1': 1}), 0, 0, 'all arrays, pairs swapped'),
